@@ -138,8 +138,11 @@ Section Kernels.
     let factor := fdec 1 4 in
     let s_na := - ((g 0 + (g 1 * fst p)) + (g 2 * snd p)) in
     let t_na := - ((g 3 + (g 4 * fst p)) + (g 5 * snd p)) in
-    if ((((- g 6) * factor) * feps) <=? s_na) && ((((- g 6) * factor) * feps) <=? t_na)
-       && (((s_na + t_na) - g 6) <=? ((g 6 * factor) * feps)) then
+    let rel := factor * feps in
+    let tol_s := rel * ((fabs (g 0) + fabs (g 1 * fst p)) + fabs (g 2 * snd p)) in
+    let tol_t := rel * ((fabs (g 3) + fabs (g 4 * fst p)) + fabs (g 5 * snd p)) in
+    if ((- tol_s) <=? s_na) && ((- tol_t) <=? t_na)
+       && (((s_na + t_na) - g 6) <=? ((tol_s + tol_t) + (g 6 * rel))) then
       let s := g 7 * s_na in
       let t' := g 7 * t_na in
       let '((_, _, v0), (_, _, v1), (_, _, v2)) := t in
